@@ -258,3 +258,11 @@ def r08_4(ctx):
 def r08_5(ctx):
     from .c06 import r06_2
     r06_2(ctx)
+
+
+@rule("R08.6", min_instances=20, desc="what the dense output is anchored on: every integrator sub-step starts at its own time and state (discrete_system chain, shared with C01) and the collocation polynomial's end value closes the step for every scheme (shared with C02)")
+def r08_6(ctx):
+    from .c01 import r01_1
+    from .c02 import r02_5
+    r01_1(ctx)
+    r02_5(ctx)
